@@ -72,35 +72,26 @@ pub fn nth(labels: &[Vec<u8>], max: u32, mut idx: u64) -> Labels {
     out
 }
 
+/// Abstract scene of a text case for violation keys: the single most specific presentation
+/// feature of the name (keeps the key set of one root cause small; the full name is in the case).
 fn features(r: &RefName) -> String {
-    let mut f = vec![];
     let all = r.labels.concat();
-    if r.labels.first().map(|l| l.as_slice() == b"*").unwrap_or(false) {
-        f.push("star");
-    }
-    if all.contains(&b'.') {
-        f.push("dot");
-    }
-    if all.contains(&b'_') {
-        f.push("underscore");
-    }
-    if all.contains(&b'-') {
-        f.push("hyphen");
-    }
-    if all.iter().any(|b| b.is_ascii_uppercase()) {
-        f.push("upper");
-    }
-    if r.labels.iter().any(|l| l.len() == 63) {
-        f.push("len63");
-    }
-    if !r.fqdn {
-        f.push("relative");
-    }
-    if f.is_empty() {
-        "plain".into()
+    let f = if r.labels.first().map(|l| l.as_slice() == b"*").unwrap_or(false) {
+        "star"
+    } else if all.contains(&b'.') {
+        "dot"
+    } else if all.contains(&b'_') {
+        "underscore"
+    } else if all.contains(&b'-') {
+        "hyphen"
+    } else if all.iter().any(|b| b.is_ascii_uppercase()) {
+        "upper"
+    } else if r.labels.iter().any(|l| l.len() == 63) {
+        "len63"
     } else {
-        f.join("+")
-    }
+        "plain"
+    };
+    f.to_string()
 }
 
 pub fn text_case_json(r: &RefName) -> Value {
@@ -187,7 +178,7 @@ pub fn run_text_case(r: &RefName, judged: bool, l: &mut Local) {
     for (who, res) in [("parse", catch(|| Name::parse(&t, None))), ("from_utf8", catch(|| Name::from_utf8(&t)))] {
         match res {
             Err(p) => l.violation(&format!("panic:{}", vcore::short_loc(&p.loc)), &p.msg, case),
-            Ok(Err(_)) => l.outcome(&format!("obs:{who}-rejects:{}", if feat.contains("underscore") { "underscore" } else { "other" })),
+            Ok(Err(_)) => l.outcome(&format!("obs:{who}-rejects:{}", if r.labels.concat().contains(&b'_') { "underscore" } else { "other" })),
             Ok(Ok(n)) => {
                 if n != h {
                     l.violation(&format!("text:{who}:changed:{feat}"), "strict parser returned Ok with a different name", case);
